@@ -960,10 +960,12 @@ func (vc *VC) ghostSend(st *State, ct types.Type, ch *Term, v Val, vt types.Type
 	ki := vc.reg.get(key, 1, IntSort, nil)
 	h := st.heapVar(ki)
 	st.heap[key] = Store(h, ch, Add(Select(h, ch), IntC(1)))
+	lk := "ghost:last<" + chanKey(ct) + ">"
 	if s := scalarSort(vt); s != nil {
-		lk := "ghost:last<" + chanKey(ct) + ">"
 		kl := vc.reg.get(lk, 1, s, nil)
 		st.heap[lk] = Store(st.heapVar(kl), ch, st.toTerm(v, vt))
+	} else if _, isStruct := under(vt).(*types.Struct); isStruct && v != nil {
+		st.storeKey(PHeap, lk, ch, nil, vt, v)
 	}
 }
 
